@@ -25,7 +25,7 @@ def main(argv: List[str]) -> int:
             m = o.model or {}
             nm = next((v for k, v in m.items() if k.endswith(".name.s")), None)
             return True, {"key": f"{gh.DOTNET_REL}::lsp_to_base_types:post", "what": f"dotnet lsp_to_base_types maps base type {nm!r} differently from the documented mapping ({gh.DOTNET_BASE.get(nm)!r}) or raises", "base_type": nm}
-        verify(run, stats, world, interp, fi, c, f"{gh.DOTNET_REL}::lsp_to_base_types", on_fail)
+        verify(run, stats, world, interp, fi, c, f"{gh.DOTNET_REL}::lsp_to_base_types", on_fail, lambda msg: run.notes.append(f"lsp_to_base_types outside the verified subset ({msg}); the item-level comparison of every emitted type stands in"))
     tmp = gen.scratch()
     n = fails = 0
     files = 0
